@@ -338,6 +338,12 @@ func (self Value) getByPath(pathes ...Path) (Value, []int) {
 					return errValue(meta.ErrRead, "GetByPath: read field length failed.", err), address
 				}
 				messageLen += Len
+				// NOTICE: a LIST/MAP field is a run of records with the same field number, which ends at the latest
+				// where this message does: the next record of the outer message may have the same number
+				if p.Read+messageLen > len(p.Buf) {
+					return errValue(meta.ErrRead, "GetByPath: field length exceeds the buffer.", nil), address
+				}
+				p.Buf = p.Buf[:p.Read+messageLen]
 			}
 
 			fd := desc.Message().ByNumber(id)
@@ -362,6 +368,12 @@ func (self Value) getByPath(pathes ...Path) (Value, []int) {
 					return errValue(meta.ErrRead, "GetByPath: read field length failed.", err), address
 				}
 				messageLen += Len
+				// NOTICE: a LIST/MAP field is a run of records with the same field number, which ends at the latest
+				// where this message does: the next record of the outer message may have the same number
+				if p.Read+messageLen > len(p.Buf) {
+					return errValue(meta.ErrRead, "GetByPath: field length exceeds the buffer.", nil), address
+				}
+				p.Buf = p.Buf[:p.Read+messageLen]
 			}
 
 			fd := desc.Message().ByName(name)
